@@ -22,7 +22,8 @@ def signature(prop, kind, scenario, detail):
         hdr, last = lines[0], lines[-1]
         e = last.get("e")
         if e == "retry":
-            diff = [k for k in ("key", "scid", "dcid", "ip", "port") if not last.get("same", {}).get(k, True)]
+            ctx = last.get("ctx", {})
+            diff = ["%s=%s" % (k, ctx.get(k)) for k in ("key", "scid", "dcid", "ip", "port") if ctx.get(k, "same") != "same"]
             return "retry;lvl=%s;different=%s;dmg=%s;window=%s;ok=%s;odsame=%s" % (
                 last.get("lvl"), "+".join(diff) or "none", last.get("dmg"), _window(last, hdr.get("v", 5)),
                 last.get("ok"), last.get("odsame"))
